@@ -1,7 +1,7 @@
 #!/bin/bash
 # usage: verify_seed.sh <prop> <k> : confirm a seeded change (patch + demo) in a scratch worktree of /repo.
 # Writes /tmp/seed_out/<prop>/<k>/verify.log ; prints a one-line verdict.  Removes the worktree afterwards.
-P=$1; K=$2; D=/tmp/seed_out/$P/$K; W=/tmp/vs_${P}_$K
+P=$1; K=$2; D=${SEED_DIR:-/tmp/seed_out}/$P/$K; W=/tmp/vs_${P}_$K
 export CARGO_NET_OFFLINE=true
 git -C /repo worktree add -q --detach $W HEAD || exit 2
 cd $W
